@@ -50,6 +50,11 @@ def cases(draw, subject=None, max_n=40):
         case["bad_ticks"] = True
     if case["stream"] and case["stream"][0][0] is not None and draw(st.integers(0, 3)) == 0:
         case["hexital_tf2"] = draw(st.sampled_from(("T1", "T5", "H1", "S30")))
+    elif case["stream"] and case["stream"][0][0] is not None and not case.get("tf") and draw(st.integers(0, 2)) == 0:
+        # base timeframe only: there every candle is converted once, while its predecessor is still retained. (On a
+        # collapsing timeframe a re-opened bucket is converted again and may by then have lost its predecessor to
+        # the trim - the recurrence cannot be continued there, by construction, so that is not judged.)
+        case["lifespan"] = draw(st.sampled_from((120, 300, 433, 600, 3600)))
     return case
 
 
@@ -78,9 +83,13 @@ def _expected(rows, tf, fill):
     return raw, heikin.heikin_ashi(raw)
 
 
-def _judge_candles(candles, rows, tf, fill, where, subject):
+def _judge_candles(candles, rows, tf, fill, where, subject, lifespan=None):
     raw, want = _expected(rows, tf, fill)
     got = snap(candles, readings=False)
+    if lifespan is not None and want and want[-1][0] is not None:
+        # only the window is retained, but the recurrence behind it is that of the whole stream
+        keep = [i for i, w in enumerate(want) if w[0] >= want[-1][0] - lifespan]
+        raw, want = [raw[i] for i in keep], [want[i] for i in keep]
     if len(got) != len(want):
         return [Violation("candle-count", where, f"{len(got)} candles vs {len(want)} expected", subject)]
     for i, (g, w, r, c) in enumerate(zip(got, want, raw, candles)):
@@ -95,7 +104,33 @@ def _judge_candles(candles, rows, tf, fill, where, subject):
     return []
 
 
+def _run_lifespan(case) -> Result:
+    """a candle lifespan on top: the retained candles are the tail of the full stream's Heikin-Ashi series"""
+    from datetime import timedelta
+
+    from hexital.candlesticks.heikinashi import HeikinAshi
+    from hexital.core.candle_manager import CandleManager
+
+    rows, tf, fill = case["stream"], case.get("tf"), bool(case.get("fill"))
+    pre, chunks = twin.schedule(case)
+    labels = ["with_lifespan"] + (["has_tf"] if tf else [])
+    kw = {"candlestick_type": HeikinAshi(), "candles_lifespan": timedelta(seconds=case["lifespan"])}
+    if tf:
+        kw.update(timeframe=tf, timeframe_fill=fill)
+    try:
+        m = CandleManager(mk_candles(pre), **kw)
+        for ch in chunks:
+            m.append(mk_candles(ch))
+    except Exception as exc:
+        return Result([raises(exc, "HA")], False, labels)
+    viol = _judge_candles(m.candles, rows, tf, fill, "manager+lifespan" + ("+tf" if tf else ""), "HA", lifespan=case["lifespan"])
+    trimmed = len(m.candles) < len(_expected(rows, tf, fill)[1])
+    return Result(viol, trimmed and len(chunks) >= 2, labels + (["trimmed"] if trimmed else []))
+
+
 def run_case(case) -> Result:
+    if case.get("lifespan"):
+        return _run_lifespan(case)
     subject = gc.subject_of(case["cfg"])
     rows, tf, fill = case["stream"], case.get("tf"), bool(case.get("fill"))
     pre, chunks = twin.schedule(case)
